@@ -122,6 +122,12 @@ func init() {
 	for _, a := range []string{"5", "0x10", "-1", "0xfffffffffffffff0", "", "_", "zz"} {
 		em = append(em, uiLine{"s", []string{a}}, uiLine{"rmod x1", []string{a}}, uiLine{"rmod x5", []string{a, a}})
 	}
+	// answers outside the range of a narrow prompt (1-, 2- and 4-byte memory prompts of lbu/lw):
+	// below the signed minimum of the width, above its unsigned maximum, below the int64 range
+	for _, a := range []string{"-200", "-0x8001", "-3000000000", "-9223372036854775809", "0x1ff"} {
+		em = append(em, uiLine{"s", []string{a}})
+	}
+	em = append(em, uiLine{"rmod x1", []string{"-9223372036854775809"}})
 	c22Alpha["emulate"] = em
 	c22Alpha["memview"] = mk(append([]string{
 		"d 1", "d", "u 1", "g 0", "g 1", "g 999", "a 0", "a 5", "a 1", "a 0x2000", "a 0X2000", "a 0b101", "a 017", "a x", "a -1", "a",
@@ -179,7 +185,7 @@ func init() {
 	checks["C22"] = eng.Check{
 		Hist:        true,
 		Procs:       12,
-		Rule:        "explicit-state BFS over input-line histories of depth <=3 (thorough 4) from the initial state and 6 non-initial root states (inside the emulator, after emulation steps, inside memory views of an absent memory, of a written memory and of a memory written in the last window of the address space, after a move) on 4 programs (a 1-instruction code, a 3-block code with blocks of different sizes, a loop with a gap, a code with blocks of 2, 1 and 2 instructions), through the real UI.processCommand with stdin injected per command; line alphabets per mode: disassembler 43 lines plus, per program, moves between every pair of block header lines, a move of EVERY line onto itself and onto its successor, bounds of every line, and move/bounds/goto on each block's first instruction, emulator 35 lines with prompt answers from {5,0x10,-1,0xfffffffffffffff0,'',_,zz}, memory view 27 lines (blank/space-only lines, missing/extra/non-numeric/negative/huge arguments, out-of-range line numbers, bad regexes, unknown commands, mode switches e, m <key>, q). After every command the composite screen is rendered at heights 24 and 50 as Run does. States are deduplicated by (mode stack, cursors, marks, code order, emulator registers and memory). A line that leaves the observable state unchanged is entered a second time (hidden state left by a failed command). Plus three long walks per program on a single session (600 lines cycling through the alphabet of the current mode; in the third every line is entered twice in a row). Oracle: no panic, the command loop does not fail, q pops exactly one mode. PROC conformance: every single disassembler line (thorough: every pair of disassembler lines and every emulator line after 'entry; e') typed into the real binary under a pseudo-terminal on two programs, followed by quits: no crash, no hang, exit status 0. Non-trivial = history reaching a new state.",
+		Rule:        "explicit-state BFS over input-line histories of depth <=3 (thorough 4) from the initial state and 6 non-initial root states (inside the emulator, after emulation steps, inside memory views of an absent memory, of a written memory and of a memory written in the last window of the address space, after a move) on 4 programs (a 1-instruction code, a 3-block code with blocks of different sizes, a loop with a gap, a code with blocks of 2, 1 and 2 instructions), through the real UI.processCommand with stdin injected per command; line alphabets per mode: disassembler 43 lines plus, per program, moves between every pair of block header lines, a move of EVERY line onto itself and onto its successor, bounds of every line, and move/bounds/goto on each block's first instruction, emulator 41 lines with prompt answers from {5,0x10,-1,0xfffffffffffffff0,'',_,zz} and, for steps, answers outside the range of a narrow prompt {-200,-0x8001,-3000000000,-9223372036854775809,0x1ff}, memory view 27 lines (blank/space-only lines, missing/extra/non-numeric/negative/huge arguments, out-of-range line numbers, bad regexes, unknown commands, mode switches e, m <key>, q). After every command the composite screen is rendered at heights 24 and 50 as Run does. States are deduplicated by (mode stack, cursors, marks, code order, emulator registers and memory). A line that leaves the observable state unchanged is entered a second time (hidden state left by a failed command). Plus three long walks per program on a single session (600 lines cycling through the alphabet of the current mode; in the third every line is entered twice in a row). Oracle: no panic, the command loop does not fail, q pops exactly one mode. PROC conformance: every single disassembler line (thorough: every pair of disassembler lines and every emulator line after 'entry; e') typed into the real binary under a pseudo-terminal on two programs, followed by quits: no crash, no hang, exit status 0. Non-trivial = history reaching a new state.",
 		Assumptions: []string{"every injected input ends with a tail of valid answers so prompts never hit EOF (horizon)", "terminal size is supplied by the harness (heights 24, 50); the system call path is only exercised by C26's pty runs"},
 		Run: func(r *eng.Run) {
 			uix.Discard = true // the oracle does not read the screen text
